@@ -318,7 +318,9 @@ class SimSocket:
         return bool(self.rx) or self.rx_eof or self.rx_reset or self.shut_rd
 
     def _sim_writable(self):
-        return self.k.now >= self.unwritable_until
+        # (a writer blocked on a full window is woken when the connection is reset: its write then fails.  Closing the
+        # descriptor from another thread does not wake it - the kernel keeps the file alive for the system call)
+        return self.k.now >= self.unwritable_until or self.rx_reset
 
     # -- connect ------------------------------------------------------------------------
     def connect(self, address):
